@@ -162,6 +162,8 @@ func runC09(c *kit.Ctx) {
 
 	// ---- R3 ---------------------------------------------------------------
 	c.StartRule("R3", "mark-unavailable / establisher pairing", 8)
+	connectionsComeFromTheCache(c)
+	dialHonoursItsContext(c)
 	publishedRegionGetsItsEstablisher(c)
 	muName, maName := hrpcRI+"MarkUnavailable", hrpcRI+"MarkAvailable"
 	estNames := []string{kit.M("", "*client", "reestablishRegion"), kit.M("", "*client", "establishRegion")}
@@ -305,6 +307,7 @@ func runC09(c *kit.Ctx) {
 
 	// ---- R6 ---------------------------------------------------------------
 	c.StartRule("R6", "the establisher's 'should not happen' panics are unreachable", 3)
+	failedLookupResultsAreNotUsed(c)
 	lookupContexts(c)
 	{
 		ire := c.Anchor("", "", "isRegionEstablished")
@@ -365,6 +368,9 @@ func runC09(c *kit.Ctx) {
 	}
 
 	// ---- R5 ---------------------------------------------------------------
+	if !c.Frozen {
+		embed(c, "R9", "every wait a request can sit in watches something that ends: its own context, the batch context, the client's done channel (the rules of C13, run as one rule here)", 30, runC13)
+	}
 	embed(c, "R7", "no request is stranded by a failing connection (the rules of C03, run as one rule here)", 30, runC03)
 	if !c.Frozen {
 		embed(c, "R8", "a region that leaves the cache is marked dead - and only such a region - so that nobody keeps waiting for, or re-establishing, a region that cannot come back (the rules of C08, run as one rule here)", 10, runC08)
